@@ -523,7 +523,9 @@ def correspond(R, header, report_fn, cases, name, point, shard=400, timeout=900)
         parts = row.split()
         m, s, i, cls = parts[0], parts[1], parts[2], parts[3]
         R.count(c['key'], c['nontrivial'])
-        if m == '1' and s == '1' and i == '0':
+        if m == '1' and s == '1' and i == '0' and cls != '-' and cls in kf:
+            R.known(cls)
+        elif m == '1' and s == '1' and i == '0':
             # the modelled layer matches, yet the property-level oracle fails on the implementation: the part of the code the
             # model abstracts (e.g. the generated class as a function of the argument map) does not behave as assumed
             found += 1
